@@ -15,6 +15,7 @@
                    give identical corner terms and orientation for every position to depth 2 (quick) / 3 (thorough),
                    symbolically (opaque level-1 corners) and on the real doubles.
 """
+from vlib.core import soft_attr as core_u
 import itertools
 import math
 import time
@@ -414,8 +415,8 @@ def routes_concrete(depth, planetary):
 
 def check(run):
     mod, py = decy.load()
-    run.uses("toasty/_libtoasty.pyx:_mid (decythonised)", tt._div4, tt._create_level1_tiles, tt.create_single_tile, tt.generate_tiles, tt.generate_tiles_filtered,
-             tt._postfix_corner, tt.toast_tile_for_point)
+    run.uses("toasty/_libtoasty.pyx:_mid (decythonised)", core_u(tt, "_div4"), core_u(tt, "_create_level1_tiles"), tt.create_single_tile, tt.generate_tiles, tt.generate_tiles_filtered,
+             core_u(tt, "_postfix_corner"), tt.toast_tile_for_point)
     run.bound(mid="all angles (unbounded reals; non-degenerate pairs: A + B not zero and not on the polar axis)", div4="symbolic corners, any level / position",
               neighbours="all 4 x 4 side pairs x same/reversed direction x both orientations", routes="every position to depth %d, both coordinate systems" % (2 if run.tier == "quick" else 3))
     run.assume("angles enter only through sine and cosine (addition formulas; atan2 / hypot by their defining polynomial relations)",
